@@ -45,6 +45,62 @@ def variant_name(n, fmap):
     return n
 
 
+def scan_event(ctx, sfw, be, dbname, db, mode, th, vname, d, fmap, origins, target=None):
+    args = ["scan", "--no-sandbox", "--threshold", th, "--db", db] + (["--exact"] if mode == "exact" else []) + [target or os.path.join(d, "pk")]
+    rc, out, err = run(sfw, args, d)
+    if rc != 0:
+        raise vlib.Inconclusive("sfw scan failed (%s %s %s): %s" % (vname, dbname, mode, (out + err)[-800:]))
+    doc = json.loads(out[out.index("{"):])
+    if doc.get("total_functions_scanned", 0) < len(origins):
+        raise vlib.Inconclusive("sfw scan analysed only %s functions of %s: %s" % (doc.get("total_functions_scanned"), vname, err[-600:]))
+    alerts = [{"sig": a["signature_id"], "fn": a["matched_function"], "one": a["confidence"] == 1.0, "conf": repr(a["confidence"])}
+              for a in (doc.get("alerts") or [])]
+    by = {}
+    for a in alerts:
+        by.setdefault(a["fn"], []).append(a)
+    return {"ev": "scan", "db": dbname, "backend": be, "mode": mode, "theta": th, "variant": vname, "dir": d,
+            "fns": [{"name": variant_name(o.split(":", 1)[-1], fmap), "origin": o} for o in origins], "alerts": alerts, "by": by,
+            "scanned": doc.get("total_functions_scanned", 0)}
+
+
+def session_tail(ctx, sfw, rng, base, dbs, variants, origins, thorough):
+    """The session goes on: a second `sfw index` of another package into both databases, `sfw migrate` of the
+    JSON database into a fresh PebbleDB, `sfw stats` of all three, and scans of the migrated database."""
+    evs = []
+    extra = os.path.join(base, "extra")
+    funcs = [{"name": "D%d" % i, "shape": shape, "k": (i + 1) % 5} for i, shape in enumerate(gogen.SHAPES[::2])]
+    gogen.write_module(os.path.join(extra, "pk"), "pk", {"d.go": gogen.render_file("pk", funcs)}, module="example.com/c05/extra")
+    xorigins = None
+    for be, db in dbs.items():
+        rc, out, err = run(sfw, ["index", "--name", "idx2", "--severity", "LOW", "--category", "second", "--db", db, os.path.join(extra, "pk")], extra)
+        if rc != 0:
+            raise vlib.Inconclusive("second sfw index failed (%s): %s" % (be, (out + err)[-800:]))
+        doc = json.loads(out[out.index("{"):])
+        # origin identity = package + short name (both packages have a synthetic init)
+        sigs = [{"id": s["id"], "fn": "extra:" + s["name"][len("idx2_"):], "hash": s["topology_hash"]} for s in doc["indexed"]]
+        evs.append({"ev": "index", "db": be, "backend": be, "sigs": sigs})
+        xorigins = sorted({s["fn"] for s in sigs})
+    mig = os.path.join(ctx.scratch, "migrated.db")
+    rc, out, err = run(sfw, ["migrate", "--from", dbs["json"], "--to", mig], base)
+    if rc != 0:
+        raise vlib.Inconclusive("sfw migrate failed: %s" % (out + err)[-800:])
+    evs.append({"ev": "migrate", "from": "json", "to": "mig", "count": json.loads(out[out.index("{"):])["signatures_migrated"]})
+    for name, db in (("pebbledb", dbs["pebbledb"]), ("json", dbs["json"]), ("mig", mig)):
+        rc, out, err = run(sfw, ["stats", "--db", db], base)
+        if rc != 0:
+            raise vlib.Inconclusive("sfw stats failed (%s): %s" % (name, (out + err)[-800:]))
+        evs.append({"ev": "stats", "db": name, "count": json.loads(out[out.index("{"):])["signature_count"]})
+    # the first package is still found (in the grown databases and in the migrated one), and so is the second
+    picks = [variants[0], variants[1 % len(variants)]] + ([variants[-1]] if thorough else [])
+    for vname, d, fmap in picks:
+        for be, dbname, db in (("pebbledb", "mig", mig), ("pebbledb", "pebbledb", dbs["pebbledb"]), ("json", "json", dbs["json"])):
+            for mode, th in (("full", "0.75"), ("exact", "0.75")) + ((("full", "1.0"),) if dbname == "mig" else ()):
+                evs.append(scan_event(ctx, sfw, be, dbname, db, mode, th, vname, d, fmap, origins))
+    for be, dbname, db in (("pebbledb", "mig", mig), ("json", "json", dbs["json"])):
+        evs.append(scan_event(ctx, sfw, be, dbname, db, "full", "1.0", "extra", extra, {}, xorigins))
+    return evs
+
+
 def check(ctx):
     thorough = ctx.tier == "thorough"
     ctx.model_check(MATCH, "MC_Match", "MC_Match_c05.cfg" if thorough else "MC_Match_c05_quick.cfg", timeout=1500)
@@ -165,7 +221,8 @@ def check(ctx):
             by.setdefault(a["fn"], []).append(a)
         evs.append({"ev": "scan", "db": be, "backend": be, "mode": mode, "theta": th, "variant": name, "dir": d,
                     "fns": fns, "alerts": alerts, "by": by, "scanned": doc.get("total_functions_scanned", 0)})
-    ctx.notes["scans"] = len(evs) - 2
+    evs += session_tail(ctx, sfw, rng, base, dbs, variants, origins, thorough)
+    ctx.notes["scans"] = len([e for e in evs if e["ev"] == "scan"])
     ctx.notes["variants"] = len(variants)
     trace = os.path.join(ctx.scratch, "trace.ndjson")
     vlib.write_ndjson(trace, evs)
@@ -176,11 +233,24 @@ def check(ctx):
         fails = ctx.last_fails
         ctx.cov["traces_validated_against_impl"] += len(evs) - len(fails)
         classes = {}
+        # diagnostics only: the signatures each database holds at the time of an event (same bookkeeping as the spec)
+        held, at = {}, {}
+        for n, e in enumerate(evs):
+            if e["ev"] == "index":
+                held[e["db"]] = held.get(e["db"], []) + e["sigs"]
+            elif e["ev"] == "migrate":
+                held[e["to"]] = held.get(e["to"], []) + held.get(e["from"], [])
+            at[n] = {k: list(v) for k, v in held.items()}
         for fi in fails:
             e = evs[fi - 1]
-            sigs = {s["fn"]: s for s in indexed[e["db"]]}
+            if e["ev"] != "scan":
+                sig = "C05:%s:%s" % (e["ev"], e.get("db") or e.get("to"))
+                classes.setdefault(sig, []).append((e, {"name": "-", "origin": "-"}, [], {"id": "-"}))
+                continue
+            indexed_now = at[fi - 1].get(e["db"], [])
+            sigs = {s["fn"]: s for s in indexed_now}
             byhash = {}
-            for s in indexed[e["db"]]:
+            for s in indexed_now:
                 byhash.setdefault(s["hash"], set()).add(s["id"])
             for f in e["fns"]:
                 s = sigs.get(f["origin"])
@@ -204,12 +274,18 @@ def check(ctx):
         ctx.notes["rejected_classes"] = {k: len(v) for k, v in classes.items()}
         for sig in sorted(classes):
             e, f, al, s = classes[sig][0]
-            replay = ctx.save_replay("scan_%s" % vlib.digest([sig, f["origin"]]),
-                                     {"event.json": {k: e[k] for k in e if k not in ("fns", "by")}, "function.json": f, "signature.json": s,
-                                      "indexed_a.go": files["a.go"], "indexed_b.go": files["b.go"], "indexed_c.go": files["c.go"],
-                                      "scanned_a.go": open(os.path.join(e["dir"], "pk", "a.go")).read(),
-                                      "scanned_b.go": open(os.path.join(e["dir"], "pk", "b.go")).read(),
-                                      "scanned_c.go": open(os.path.join(e["dir"], "pk", "c.go")).read()})
+            rfiles = {"event.json": {k: e[k] for k in e if k not in ("fns", "by")}, "function.json": f, "signature.json": s,
+                      "session.json": [{k: x[k] for k in x if k not in ("fns", "by", "alerts", "sigs")} for x in evs],
+                      "indexed_a.go": files["a.go"], "indexed_b.go": files["b.go"], "indexed_c.go": files["c.go"]}
+            if e["ev"] == "scan":
+                for fn_ in sorted(os.listdir(os.path.join(e["dir"], "pk"))):
+                    if fn_.endswith(".go"):
+                        rfiles["scanned_" + fn_] = open(os.path.join(e["dir"], "pk", fn_)).read()
+            replay = ctx.save_replay("scan_%s" % vlib.digest([sig, f["origin"]]), rfiles)
+            if e["ev"] != "scan":
+                ctx.violation(sig, "%s: the CLI reported count=%s; the session so far: %s" % (
+                    sig, e.get("count"), [(x["ev"], x.get("db") or x.get("to"), len(x.get("sigs", [])) or x.get("count")) for x in evs if x["ev"] != "scan"]), replay)
+                continue
             ctx.violation(sig, "%s: function %s (indexed as %s, signature %s) scanned in variant %s with backend=%s mode=%s threshold=%s: "
                           "alerts for it: %s (%d occurrences in this class)"
                           % (sig, f["name"], f["origin"], s["id"], e["variant"], e["backend"], e["mode"], e["theta"],
